@@ -266,6 +266,10 @@ class RealGW:
         # "<kind>-nocb": the same gateway constructed without an event callback (the keyword is optional)
         self.nocb = kind.endswith("-nocb")
         kind = kind[:-5] if self.nocb else kind
+        if kind.endswith("-raisecb"):
+            # "<kind>-raisecb": the user's event callback raises on every call (the gateway logs it and carries on)
+            kind = kind[:-8]
+            raising_cb = True
         self.kind = kind
         self.persist = persist
         self.workdir = workdir
@@ -468,6 +472,7 @@ def op_wire(op):
 
 def gw_wire(version, kind, persist):
     kind = kind[:-5] if kind.endswith("-nocb") else kind      # the model has no callback to omit
+    kind = kind[:-8] if kind.endswith("-raisecb") else kind
     return f"G {version} {kind} {persist}"
 
 
@@ -663,6 +668,24 @@ def text_echo_burst(rng, version, hist):
     pos = rng.randrange(len(out) + 1)
     while pos < len(out) and out[pos][0] == "R":
         pos += 1
+    return out[:pos] + script + out[pos:]
+
+
+def separator_value_burst(rng, version, hist):
+    """The controller stores text holding the field separator (or a line break) as the desired value of a sleeping
+    node's child; the node then asks for that value and wakes up.  No inbound line can carry such text, a
+    controller call can: handling the node's request and the wake-up must not raise."""
+    if version in ("1.4", "1.5") or rng.random() < 0.6:
+        return hist
+    node, child = rng.choice([1, 4, 8]), rng.choice([0, 3])
+    wake = f"{node};255;3;0;{32 if version == '2.2' else 22};7\n"
+    vt = rng.choice([47, 24, 25])
+    text = rng.choice(["line one;line two", "a;b;c", ";", "x\ny", "1;2;3;0;4;5"])
+    script = [("L", f"{node};255;0;0;17;{version}\n"), ("L", f"{node};{child};0;0;36;info\n"),
+              ("L", f"{node};{child};1;0;{vt};hello\n"), ("L", wake),
+              ("S", node, child, vt, text, None), ("L", f"{node};{child};2;0;{vt};\n"), ("L", wake)]
+    out = list(hist)
+    pos = rng.randrange(len(out) + 1)
     return out[:pos] + script + out[pos:]
 
 
